@@ -461,6 +461,9 @@ def _classify_while(lp, f):
                 progress = True     # x = x.attr: descent into a strictly smaller object
             if e[0] == 'set' and held and e[1] == held and (e[3] in ('None',) or e[3].endswith(' or None') and e[3][:-8] in halves):
                 progress = True
+            if e[0] == 'set' and held and e[1] == held and __import__('re').fullmatch(
+                    __import__('re').escape(held) + r'\[[^\[\]:]+:\](?: or None)?', e[3]):
+                progress = True     # shortened to its own tail  x = x[k:]  (the head x[:k] is what was put on the line: non-empty by C12.c)
             if e[0] == 'set' and held and e[1] == held and ((e[3].startswith('split_at(') and e[3].endswith('[1]')) or
                                                             ('split_at' in e[3] and not e[3].endswith(']')) or e[3] in halves):
                 progress = True     # shortened to the right half of a split (non-empty left half: C12.c floor)
